@@ -54,7 +54,9 @@ func scriptText(status string, calls []string) string {
 		fmt.Fprintf(&b, "use(%q)\n", t)
 	}
 	if len(calls) == 0 {
-		b.WriteString("add_key(k, 1)\n")
+		// a script that uses nothing: every third set spells it without any statement (a comment, blank lines, a lone separator) -
+		// still a script, and a legitimate target of use()
+		b.WriteString([]string{"add_key(k, 1)\n", "add_key(k, 1)\n", "# nothing to do\n", "add_key(k, 1)\n", "add_key(k, 1)\n", "\n\n", "add_key(k, 1)\n", "add_key(k, 1)\n", ";\n"}[shapeCounter%9])
 	} else if curShapeOff == 2 {
 		b.WriteString("}\n")
 	}
